@@ -3,7 +3,7 @@ package fasta
 // Bounded back end for C13: FASTA write/read, re-wrapping and streaming.
 //
 // Clauses executed on the real Build / Write / Parse / Read / ReadGz /
-// ParseConcurrent:
+// ReadGzConcurrent / ParseConcurrent:
 //
 //   io/fasta.Build-Parse/post/roundtrip       Parse(Build(xs)) == xs
 //   io/fasta.Parse/post/layout-invariance     Parse(layout(xs)) == xs for every
@@ -14,7 +14,8 @@ package fasta
 // The oracle is the record list the text was generated from; the text of the
 // second and third clause is laid out by an independent writer (c13Layout) that
 // follows the FASTA conventions the property names (a '>' header line, sequence
-// lines of any width, blank lines, ';' comment lines, LF or CRLF, gzip).
+// lines of any width, blank lines, ';' comment lines, LF or CRLF, gzip; a gzip
+// file may consist of several members).
 
 import (
 	"bytes"
@@ -206,6 +207,40 @@ func c13Gzip(text []byte) []byte {
 	_, _ = w.Write(text)
 	_ = w.Close()
 	return b.Bytes()
+}
+
+// c13GzipMembers compresses text as a gzip file of several members (RFC 1952:
+// "a gzip file consists of a series of members"; what `cat a.gz b.gz`, bgzip or a
+// writer that is closed and reopened per block produce): one member per piece
+// of text between consecutive cut positions (sorted, 0..len(text)); a piece may
+// be empty. Such a file decompresses to the whole text.
+func c13GzipMembers(text []byte, cuts []int) []byte {
+	var b bytes.Buffer
+	start := 0
+	for _, c := range append(append([]int{}, cuts...), len(text)) {
+		w, _ := gzip.NewWriterLevel(&b, gzip.BestSpeed) // the level does not matter here; keeps the quick tier short
+		_, _ = w.Write(text[start:c])
+		_ = w.Close()
+		start = c
+	}
+	return b.Bytes()
+}
+
+// c13Collect receives from ch until it is closed or the deadline passes.
+func c13Collect(ch <-chan Fasta, deadline time.Duration) (got []Fasta, closed bool) {
+	timer := time.NewTimer(deadline)
+	defer timer.Stop()
+	for {
+		select {
+		case x, ok := <-ch:
+			if !ok {
+				return got, true
+			}
+			got = append(got, x)
+		case <-timer.C:
+			return got, false
+		}
+	}
 }
 
 // c13List draws a record list of n records whose sequence lengths come from lens.
@@ -404,14 +439,18 @@ func c13Roundtrip(t *testing.T, dir string) {
 func c13Invariance(t *testing.T, dir string) {
 	thorough := verifThorough()
 	nLists, nLayouts := 36, 10
+	nGz := 4
 	if thorough {
 		nLists, nLayouts = 400, 40
+		nGz = 12
 	}
 	v := newVerifRun("C13", "io/fasta.Parse/post/layout-invariance",
 		"Parse(text) == xs for texts laid out by an independent writer: "+strconv.Itoa(nLists)+" seeded lists (1..200 records, lengths mixed over 0..300000, at most 1,500,000 letters per list, plus lists holding one sequence of 65535/65536/70000/300000 letters), each in "+
 			strconv.Itoa(nLayouts)+" layouts drawn from: wrap width fixed in {1,2,3,7,10,59,60,61,70,80,1000,4096,65534,65535,65536,100000}, none (one line per sequence), or varying per line up to 200 or 70000; "+
 			"blank lines and ';' comment lines (printable text) inserted before any line with probability 0/20/50 %; LF or CRLF; empty sequence as no line or blank line; "+
-			"read through Parse, Read (temp file) or ReadGz (gzip temp file); non-trivial = layout differs from one-line-per-sequence LF text")
+			"read through Parse, Read (temp file) or ReadGz (gzip temp file, one member); PLUS per list "+strconv.Itoa(nGz)+" further layouts from the same choices written as gzip temp files and read through ReadGz or ReadGzConcurrent (channel capacity 0, 1 or 1000, records collected until the channel is closed, 20 s deadline): "+
+			"in turn ReadGz on a file of 2 gzip members, ReadGzConcurrent on a file of 1 member, ReadGzConcurrent on 2..6 members, ReadGz on 2..6 members; a multi-member file is the text cut at uniformly random byte positions (anywhere: inside a header, a sequence line or a CRLF; a tenth of the files also get an empty member), each piece compressed by its own gzip.Writer and the members concatenated, which decompresses to the whole text; class multi-member-gzip; "+
+			"non-trivial = layout differs from one-line-per-sequence LF text")
 	v.Sampled()
 	seed := verifSeed()
 	widths := []int{1, 2, 3, 7, 10, 59, 60, 61, 70, 80, 1000, 4096, 65534, 65535, 65536, 100000, 0, -200, -70000}
@@ -468,6 +507,65 @@ func c13Invariance(t *testing.T, dir string) {
 			})
 		}
 	}
+	// the same lists as gzip files of one or several members, through ReadGz and
+	// ReadGzConcurrent (own random streams: the layouts above stay what they were)
+	addGz := func(xs []Fasta, s int64) {
+		for k := 0; k < nGz; k++ {
+			k := k
+			jobs = append(jobs, func() {
+				rng := rand.New(rand.NewSource(s*8191 + 0x6a + int64(k)))
+				o := c13Opts{width: widths[rng.Intn(len(widths))], blank: []int{0, 20, 50}[rng.Intn(3)], comment: []int{0, 20, 50}[rng.Intn(3)], crlf: rng.Intn(2) == 0, emptyAsB: rng.Intn(2) == 0}
+				if c13Letters0(xs) > 400000 && o.width > 0 && o.width < 7 {
+					o.width = 60 // keep the text size bounded
+				}
+				text := c13Layout(rng, xs, o)
+				via := []string{"ReadGz", "ReadGzConcurrent", "ReadGzConcurrent", "ReadGz"}[k%4]
+				members := []int{2, 1, 2 + rng.Intn(5), 2 + rng.Intn(5)}[k%4]
+				var cuts []int
+				for len(cuts) < members-1 {
+					cuts = append(cuts, rng.Intn(len(text)+1))
+				}
+				if members > 1 && rng.Intn(10) == 0 {
+					cuts[0] = []int{0, len(text)}[rng.Intn(2)] // an empty first or last member
+				}
+				sort.Ints(cuts)
+				capacity := []int{0, 1, 1000}[rng.Intn(3)]
+				in := fmt.Sprintf("%s layout %s as a gzip file of %d member(s) (text of %d bytes cut at %v) via %s", c13Describe(xs), o.String(), members, len(text), cuts, via)
+				if via == "ReadGzConcurrent" {
+					in += fmt.Sprintf(" capacity %d", capacity)
+				}
+				v.Case(c13Key(xs, fmt.Sprintf("%s members=%d %s", o.String(), members, via)), true)
+				class := c13Class(text)
+				if members > 1 {
+					class = "multi-member-gzip"
+				}
+				var got []Fasta
+				closed := true
+				if !fails.guard(len(text), in, func() {
+					p := nextFile(".fasta.gz")
+					if err := ioutil.WriteFile(p, c13GzipMembers(text, cuts), 0644); err != nil {
+						t.Fatal(err)
+					}
+					if via == "ReadGz" {
+						got = ReadGz(p)
+					} else {
+						ch := make(chan Fasta, capacity)
+						ReadGzConcurrent(p, ch)
+						got, closed = c13Collect(ch, 20*time.Second)
+					}
+				}) {
+					return
+				}
+				if !closed {
+					fails.add(len(text), "channel-not-closed", in, fmt.Sprintf("channel not closed within 20 s after %d record(s)", len(got)))
+					return
+				}
+				if d := c13Diff(got, xs); d != "" {
+					fails.add(len(text), class, in, d)
+				}
+			})
+		}
+	}
 	rng := rand.New(rand.NewSource(seed ^ 0x1313))
 	for i := 0; i < nLists; i++ {
 		var xs []Fasta
@@ -482,6 +580,7 @@ func c13Invariance(t *testing.T, dir string) {
 			xs = c13List(rng, 1+rng.Intn(200), func(int) int { return c13MixLen(rng, &budget) })
 		}
 		add(xs, seed*977+int64(i))
+		addGz(xs, seed*977+int64(i))
 	}
 	c13Parallel(jobs)
 	fails.flush(v)
